@@ -38,6 +38,15 @@ def generate(rng, tier):
     for _ in range(nx):
         ws = rng.random() < 0.25
         cases.append({"kind": "x", "s": _text(rng, ws), "family": "xml/ws" if ws else "xml/plain"})
+        r = rng.random()
+        if r < 0.12:
+            # the text to escape is itself the outcome of an earlier call (text that is escaped twice on purpose, e.g. markup shown as text):
+            # the very object that call returned is handed in, and must be escaped like any other string equal to it
+            b = _text(rng, False)
+            ref = b.replace("&", "&amp;").replace("<", "&lt;").replace(">", "&gt;").replace('"', "&quot;").replace("'", "&apos;")
+            cases.append({"kind": "x", "s": ref, "via": b, "family": "xml/result-of-an-earlier-call"})
+        elif r < 0.18:
+            cases[-1]["sub"] = True; cases[-1]["family"] += "/str-subclass"
     bounds = [9.9995, 9.9994999, 10.0, 59.5, 60.5, 59.4999, 3599.5, 3600.5, 3599.4999, 35999.5, 0.0005, 0.0015, 0.0025, 1e7, 9.9996, 61.5, 119.5, 7199.5]
     for _ in range(nh):
         r = rng.random()
@@ -59,6 +68,9 @@ def generate(rng, tier):
         cases.append({"kind": "h", "d": d, "ms": ms, "family": fam + ("/ms" if ms else "")})
     return cases
 
+class _Label(str):
+    """an application's own string type (a translated label, a path name): a string like any other"""
+
 def _lx(esc):
     c = etree.fromstring(("<r>%s</r>" % esc).encode("utf-8")).text or ""
     dq = etree.fromstring(('<r a="%s"/>' % esc).encode("utf-8")).get("a")
@@ -67,7 +79,13 @@ def _lx(esc):
 
 def run_impl(c):
     if c["kind"] == "x":
-        esc = text_utils.xml_escape(c["s"])
+        arg = c["s"]
+        if "via" in c:
+            first = text_utils.xml_escape(c["via"])
+            if first == c["s"]: arg = first                     # the object the library returned (equal to the text of this case)
+        elif c.get("sub"):
+            arg = _Label(c["s"])
+        esc = text_utils.xml_escape(arg)
         try:
             lc, ldq, lsq = _lx(esc)
         except etree.XMLSyntaxError as e:
